@@ -61,6 +61,11 @@ CLAIMED["C03"] = dict(cat="other", sec="DESIGN 4/C03",
     note="A4: torch.autograd.grad = exact structural derivative of the element term (tpv.jets), RuntimeError iff the variable does not occur in the graph (calibrated against real torch on the closed forms); A1 (no float32/float64 distinction), A2, A3, A9. Bounded: schematic numbers of variable / output components; derivative order <= 2.",
     tech="contract-based deductive verification over a symbolic jet domain (structural differentiation of the executed terms), z3")
 
+CLAIMED["C09"] = dict(cat="other", sec="DESIGN 4/C09",
+    text="DeepONet.forward = per-component inner product over a SYMBOLIC neuron count for shared and per-function trunk inputs (abstract trunk/branch features), identical feature layout c*q+k <-> (c,k) of the trunk and branch reshapes, the four ways of supplying the branch input hand the branch network D[b,i,:] = f_b(p_i), layers.linear forward (first copy; equals the plain layer when all copies are identical) and backward formulas (g W, g^T x per copy, sum g).",
+    note="A3 torch model (matmul, expand, reshape), A4 autograd: sum_to_size reduction of the returned gradients and double-backward through differentiable ops (second derivatives of the fast path are inherited from it, NOT proved), A2, A8, A9. Bounded: output dimension and feature counts schematic.",
+    tech="contract-based deductive verification with abstract trunk/branch operands and symbolic sums, z3")
+
 NA = {
  "C19": "restore fidelity is a property of Lightning's checkpoint / torch.save machinery, the file system and process restarts; no contract on a repo function expresses it (DESIGN 4/C19)",
  "C20": "shift-equivariance / resolution consistency are DFT theorems about torch.fft in complex floating point; a contract on _FourierLayer.forward could only restate them as axioms of an external library (DESIGN 4/C20)",
